@@ -126,9 +126,14 @@ def correspondence(ctx, batch):
     from fractions import Fraction
     dn, dd = Fraction(repr(float(P.DEFAULT))).as_integer_ratio()
     for m in ["percent", "number", "exact", "percent_95", "percent_33.3", "percent_abc", "number_5", "number_x", "number_-1",
-              "foo", "foo_1", "exact_1", "percent_70_1", "number_07", "percent_1e1", "percent_", "_", "percent_ 5 "]:
+              "foo", "foo_1", "exact_1", "percent_70_1", "number_07", "percent_1e1", "percent_", "_", "percent_ 5 ", "percent_80_90",
+              "number_1_0", "percent_7_0", "number_1_000", "percent__5", "number_3_"]:
         def run(m=m):
             mp = [m.split("_") if "_" in m else m]
+            cli = Cli()
+            # first through the real parse_args (its own splitting of the item; a pattern that matches no file)
+            cli.parse_args(["-m", "A", "zz-no-such-*.json", "--merge", m])
+            first = [stages.enc_cmp(c) for c in cli.merge_policy]
             cli = Cli()
             cli.validate(mp, "base", None)
             # through the real set_args, among other items of the same kinds: the list it stores has one comparator per
@@ -139,6 +144,8 @@ def correspondence(ctx, batch):
             rest = got[:1] + got[2:]
             if len(got) != 6 or rest != [["percent", 3, 25], ["number", 2], ["percent", 77, 100], ["exact"], ["number", 9]]:
                 return {"merge-list": got}
+            if first != [got[1]]:
+                return {"parse-args": first, "set-args": got[1]}
             return got[1]
         ans = stages.impl_call(run)
         parts = m.split("_")
@@ -368,6 +375,34 @@ def repeated_kind_case(rng, which=None):
     return [{"first": a, "second": b}], {"merge": merge}, ["--merge"] + merge
 
 
+def format_case(rng, which):
+    """the other input formats, with what makes them more than json: an ini file with a [DEFAULT] section, `%(name)s`
+    references, `%%`, options overridden in a section, whole-file and per-section lookups; a yaml document with anchors,
+    aliases, a merge key and the scalar kinds. The expected samples are what the stdlib `configparser` (default settings) /
+    the yaml loader say the document holds, read by the harness itself."""
+    if which % 2 == 0:
+        import configparser
+        base = rng.choice(["8000", "9", "120"])
+        text = ("[DEFAULT]\nbase_port = %s\nhost = example.org\nurl = http://%%(host)s:%%(base_port)s/\nratio = 50%%%%\n"
+                "[server]\nport = %%(base_port)s\nname = main\nalias = srv.%%(host)s\n"
+                "[client]\nport = 1%%(base_port)s\nretries = 3\ngreeting = hello %%(name)s\nname = c1\n") % base
+        cp = configparser.ConfigParser()
+        cp.read_string(text)
+        doc = {sec: dict(cp.items(sec)) for sec in cp.sections()}
+        if which % 4 == 0:
+            return [doc], {"conf.ini": text}, ["-m", "Root", "conf.ini", "-i", "ini"], "format-ini"
+        return [doc["server"], doc["client"]], {"conf.ini": text}, \
+            ["-m", "Root", "server", "conf.ini", "-m", "Root", "client", "conf.ini", "-i", "ini"], "format-ini-lookup"
+    from ruamel import yaml as _yaml
+    text = ("defaults: &d\n  retries: 3\n  timeout: 1.5\n  tags: [a, b]\n"
+            "items:\n  - <<: *d\n    name: first\n    on: yes\n    when: 2020-01-02\n"
+            "  - {name: second, retries: '7', timeout: null, tags: [], extra: *d}\n")
+    doc = _yaml.YAML(typ="safe", pure=True).load(text)
+    if which % 4 == 1:
+        return doc["items"], {"doc.yaml": text}, ["-m", "Root", "items", "doc.yaml", "-i", "yaml"], "format-yaml-lookup"
+    return doc["items"], {"doc.yml": text}, ["-l", "Root", "items", "doc.yml", "-i", "yaml"], "format-yaml-l"
+
+
 def empty_object_case(rng):
     """an empty object as a whole document / as what a lookup selects is a sample like any other (the fields of the other
     samples become optional)"""
@@ -437,6 +472,14 @@ def falsify(ctx):
             full = argv + oargv + (["-o", "out.py"] if use_o else [])
             jobs.append((full, d, ctx.repo))
             metas.append((samples, files, full, opts, use_o, style, d))
+        for i in range(ctx.n(8, 40)):
+            d = os.path.join(root, "f%d" % i)
+            os.makedirs(d)
+            samples, files_f, argv_f, style_f = format_case(rng, i)
+            opts, oargv = gen_opts(rng) if i >= 4 else ({}, [])
+            clitools.write_files(d, files_f)
+            jobs.append((argv_f + oargv, d, ctx.repo))
+            metas.append((samples, files_f, argv_f + oargv, opts, False, style_f, d))
         results = clitools.run_many(jobs)
         for (samples, files, argv, opts, use_o, style, d), (rc, out, err) in zip(metas, results):
             ctx.case((repr(files), tuple(argv)), nontrivial=len(files) > 1)
